@@ -44,6 +44,8 @@ type fsHarness struct {
 	// the configured file name: stem + ext ("" = none: rotated files then end in .log), and a file of
 	// ANOTHER sink in the same directory whose name shares a prefix with ours
 	stem, ext, decoy string
+	divergedBy       map[string]bool
+	decoys           []string // files of other programs that share this sink's prefix but not its name shape
 	skipRest         bool // the case can no longer be followed (a call straddled MaxDuration): drop its remaining operations
 }
 
@@ -56,8 +58,15 @@ func (h *fsHarness) tsExt() string {
 }
 
 func (h *fsHarness) oracle(f string, a ...any) {
-	if h.diverged {
+	// one message per case and property: a C15 message does not hide the C08 one of the same case
+	if h.divergedBy == nil {
+		h.divergedBy = map[string]bool{}
+	}
+	if len(f) >= 3 && h.divergedBy[f[:3]] {
 		return
+	}
+	if len(f) >= 3 {
+		h.divergedBy[f[:3]] = true
 	}
 	h.diverged = true
 	h.st.hit("oracle-failure")
@@ -178,10 +187,19 @@ func (h *fsHarness) checkFiles(afterRotation bool) {
 			h.oracle("C15 the file %s of another sink (outside this sink's name space %s-*%s) was removed", h.decoy, h.stem, h.tsExt())
 		}
 	}
+	for _, d := range h.decoys {
+		if _, err := os.Stat(filepath.Join(h.dir, d)); err != nil {
+			h.oracle("C15 the file %s (outside this sink's name space %s-*%s) was removed", d, h.stem, h.tsExt())
+		}
+	}
 	if ents, err := os.ReadDir(h.dir); err == nil {
 		for _, e := range ents {
 			n := e.Name()
-			ok := n == h.plainName() || n == h.decoy || strings.HasPrefix(n, "moved") ||
+			isDecoy := false
+			for _, d := range h.decoys {
+				isDecoy = isDecoy || n == d
+			}
+			ok := isDecoy || n == h.plainName() || n == h.decoy || strings.HasPrefix(n, "moved") ||
 				(strings.HasPrefix(n, h.stem+"-") && strings.HasSuffix(n, h.tsExt()))
 			if !ok {
 				h.oracle("C15 a file named %s appeared: not the configured name %s, not %s-<timestamp>%s", n, h.plainName(), h.stem, h.tsExt())
@@ -286,11 +304,21 @@ func (h *fsHarness) reset(f []string) {
 		os.MkdirAll(h.dir, 0o700)
 		os.WriteFile(filepath.Join(h.dir, h.decoy), []byte("another sink's file\n"), 0o600)
 	}
+	h.decoys = nil
+	if (h.mb+h.mf)%2 == 1 {
+		// <stem>-… files that are not <stem>-<timestamp><ext>: a read-me, a compressed old file, an archive
+		h.decoys = []string{h.stem + "-00-README.txt", h.stem + "-1000000000000000000" + h.tsExt() + ".gz", h.stem + "-zz-archive.tar"}
+		os.MkdirAll(h.dir, 0o700)
+		for _, d := range h.decoys {
+			os.WriteFile(filepath.Join(h.dir, d), []byte("not this sink's file\n"), 0o600)
+		}
+	}
 	h.sink = &eventlogger.FileSink{Path: h.dir, FileName: h.plainName(), MaxBytes: h.mb, MaxFiles: h.mf, MaxDuration: time.Duration(h.md) * time.Millisecond,
 		TimestampOnlyOnRotate: h.tso, Mode: os.FileMode(h.mode)}
 	h.acked = nil
 	h.caseOps = nil
 	h.diverged = false
+	h.divergedBy = nil
 	h.foreign = false
 	h.lastOK = false
 	h.sinceOpen = 0
